@@ -130,7 +130,7 @@ def run(tier, seed):
     if res.error or res.invariant_violated or res.property_violated:
         raise core.MachineryError(f"Ctx.tla (Inj) violates its own properties: {res.invariant_violated or res.error}\n{res.out[-1500:]}")
     rep.add_tlc(res, f"MC_Ctx with Inject, MaxCtx={mc[0]} MaxRegs={mc[1]}: design properties on the complete step relation")
-    graphs = [(2, 2, ["default"]), (2, 1, ["default", "alt"])] if tier == "quick" else [(2, 3, ["default"]), (3, 2, ["default"]), (2, 2, ["default", "alt"])]
+    graphs = [(2, 2, ["default"]), (2, 1, ["default", "alt"])] if tier == "quick" else [(2, 3, ["default"]), (2, 2, ["default", "alt"])]
     dumps = core.pmap(ctxreplay._dump_job, [(ctxreplay._cfg_text(a, b, nm, inj=True),) for a, b, nm in graphs], chunks=1, jobs=len(graphs))
     total = collections.Counter()
     ninj = 0
@@ -173,7 +173,7 @@ def run(tier, seed):
         pairs = sorted(pairs, key=lambda p: (p["fin"] != "ret", str(p["prog"]), str(p["hist"])))
         rnd.shuffle(pairs)
         gets = [p for p in pairs if any(op["k"] == "get" for sc in p["prog"]["ss"] + p["prog"]["sp"] for op in sc)]
-        return gets[:2500 if tier_ == "quick" else 40000]
+        return gets[:2500 if tier_ == "quick" else 12000]
     cfg = open(tlc.SPECS / "MC_Startup_C06.cfg").read().replace("PrepOps <- Ops6Prep", "PrepOps <- Ops6PrepQuick")
     cfgs = [("C06 family with lookups through @inject, 3 components", cfg)]
     if tier != "quick":
@@ -197,7 +197,7 @@ def run(tier, seed):
     # one decorated coroutine function called concurrently from tasks in two contexts, with lookups that really suspend (Race.tla)
     from .. import race
     tv = rep.traces_validated
-    race.inject_check(PROP, tier, seed, rep, 600 if tier == "quick" else 20000)
+    race.inject_check(PROP, tier, seed, rep, 600 if tier == "quick" else 6000)
     extra_traces = rep.traces_validated - tv
     fx = ctxreplay._fx()
     rep.traces_validated = total["tours"] + sub.traces_validated + extra_traces
